@@ -95,6 +95,11 @@ func (r *RNN) Apply(inputs []tensor.Tensor) ([]tensor.Tensor, error) {
 	Ht := inputs[5]
 	if Ht == nil {
 		Ht = ops.ZeroTensor(1, batchSize, r.hiddenSize)
+	} else {
+		var ok bool
+		if Ht, ok = Ht.Clone().(tensor.Tensor); !ok {
+			return nil, ops.ErrTypeAssert("tensor.Tensor", Ht)
+		}
 	}
 
 	// Reshape the hidden tensor without the bidirectional dimension, as
